@@ -740,15 +740,20 @@ func checkFlushGate(c *Ctx, rule string) {
 				continue
 			}
 			fn := op.Fn
-			// writer: also encodes
+			// writer: also encodes (itself or in a helper)
 			var enc ssa.Instruction
-			eachInstr(fn, func(_ *ssa.BasicBlock, _ int, in ssa.Instruction) {
-				if cc := callOf(in); cc != nil {
-					if g := calleeFn(cc); g != nil && g.Name() == "Encode" {
-						enc = in
-					}
+			for _, hf := range append([]*ssa.Function{fn}, staticCalleesDeep(fn, 2)...) {
+				if hf.Pkg == nil || hf.Pkg.Pkg.Path() != modPath+"/"+redisPkg {
+					continue
 				}
-			})
+				eachInstr(hf, func(_ *ssa.BasicBlock, _ int, in ssa.Instruction) {
+					if cc := callOf(in); cc != nil {
+						if g := calleeFn(cc); g != nil && g.Name() == "Encode" {
+							enc = in
+						}
+					}
+				})
+			}
 			if enc == nil {
 				continue
 			}
@@ -795,7 +800,101 @@ func checkFlushGate(c *Ctx, rule string) {
 				gates = append(gates, gate{iff, e})
 			})
 			site := fnKey(fn) + " writer loop"
-			if len(gates) == 0 {
+			// gate helpers: a helper every non-error return of which is preceded by a queue-empty test whose empty edge
+			// flushes (flushIfIdle), or by a call to such a helper (writeRequest); its error returns must leave the loop
+			isFlushI := func(x ssa.Instruction) bool {
+				cc := callOf(x)
+				if cc == nil {
+					return false
+				}
+				gf := calleeFn(cc)
+				return gf != nil && gf.Name() == "Flush"
+			}
+			gateHelper := map[*ssa.Function]bool{}
+			var isGateHelper func(h *ssa.Function, d int) bool
+			isGateHelper = func(h *ssa.Function, d int) bool {
+				if v, ok := gateHelper[h]; ok {
+					return v
+				}
+				gateHelper[h] = false
+				if d < 0 || !isModFn(h) || h.Blocks == nil {
+					return false
+				}
+				// local gates of h, each flushing on its empty edge before any return
+				localGate := map[ssa.Instruction]bool{}
+				okGates := true
+				eachInstr(h, func(_ *ssa.BasicBlock, _ int, in ssa.Instruction) {
+					iff, ok := in.(*ssa.If)
+					if !ok {
+						return
+					}
+					bo, ok := iff.Cond.(*ssa.BinOp)
+					if !ok || (bo.Op != token.EQL && bo.Op != token.NEQ) {
+						return
+					}
+					call, ok := bo.X.(*ssa.Call)
+					z, isZ := constInt(bo.Y)
+					if !ok || !isBuiltin(call, "len") || !isZ || z != 0 {
+						return
+					}
+					if f, _ := chanFieldOf(call.Call.Args[0]); f != q {
+						return
+					}
+					e := 0
+					if bo.Op == token.NEQ {
+						e = 1
+					}
+					localGate[in] = true
+					if findPath(ipos{iff.Block().Succs[e], -1}, pathQuery{target: isReturn, avoid: isFlushI}) != nil {
+						okGates = false
+					}
+				})
+				if !okGates {
+					return false
+				}
+				crosses := func(x ssa.Instruction) bool {
+					if localGate[x] {
+						return true
+					}
+					if call, ok := x.(*ssa.Call); ok {
+						if g := calleeFn(call.Common()); g != nil && g != h && isGateHelper(g, d-1) {
+							return true
+						}
+					}
+					return false
+				}
+				okAll, nret := true, 0
+				eachInstr(h, func(b *ssa.BasicBlock, _ int, in ssa.Instruction) {
+					r, ok := in.(*ssa.Return)
+					if !ok {
+						return
+					}
+					// an error return (value tested non-nil on the dominating edge) leaves the caller's loop: checked there
+					if len(r.Results) > 0 {
+						last := r.Results[len(r.Results)-1]
+						for _, ref := range refsOf(last) {
+							if bo, ok := ref.(*ssa.BinOp); ok && bo.Op == token.NEQ && isNilConst(bo.Y) && condEdge(b, bo, true) {
+								return
+							}
+						}
+					}
+					nret++
+					if findPath(entryPos(h), pathQuery{target: func(x ssa.Instruction) bool { return x == in }, avoid: crosses}) != nil {
+						okAll = false
+					}
+				})
+				gateHelper[h] = okAll && nret > 0
+				return gateHelper[h]
+			}
+			var helperGateCalls []*ssa.Call
+			eachInstr(fn, func(_ *ssa.BasicBlock, _ int, in ssa.Instruction) {
+				if call, ok := in.(*ssa.Call); ok {
+					if g := calleeFn(call.Common()); g != nil && g != fn && isModFn(g) && isGateHelper(g, 2) {
+						helperGateCalls = append(helperGateCalls, call)
+					}
+				}
+			})
+			if len(gates) == 0 && len(helperGateCalls) == 0 {
 				c.Fail(rule, site+" has a flush gate", sel.Pos(), "the writer never tests its queue for emptiness to flush: written requests/replies can stay in the buffer")
 				continue
 			}
@@ -805,9 +904,32 @@ func checkFlushGate(c *Ctx, rule string) {
 						return true
 					}
 				}
+				for _, hc := range helperGateCalls {
+					if x == ssa.Instruction(hc) {
+						return true
+					}
+				}
 				return false
 			}
 			again := func(x ssa.Instruction) bool { return x == ssa.Instruction(sel) }
+			// the error edge of a gate helper must leave the loop (its error returns skip the gate)
+			for hi, hc := range helperGateCalls {
+				okErr := true
+				for _, ref := range refsOf(hc) {
+					bo, ok := ref.(*ssa.BinOp)
+					if !ok || bo.Op != token.NEQ || !isNilConst(bo.Y) {
+						continue
+					}
+					for _, r2 := range *bo.Referrers() {
+						if iff, ok := r2.(*ssa.If); ok {
+							if findPath(ipos{iff.Block().Succs[0], -1}, pathQuery{target: again}) != nil {
+								okErr = false
+							}
+						}
+					}
+				}
+				c.Check(okErr, rule, fmt.Sprintf("%s gate helper call#%d: its error leaves the loop", site, hi+1), hc.Pos(), "the error branch never returns to the dequeue", "after the flush helper failed the loop goes back to the blocking dequeue: what was written stays unflushed")
+			}
 			path := findPath(ipos{cb, -1}, pathQuery{target: again, avoid: isGate})
 			if path != nil {
 				c.Fail(rule, site+" every iteration passes the flush gate", sel.Pos(), "an iteration can return to the blocking dequeue without testing `len(queue) == 0` ("+p.pathString(path)+"): what earlier iterations wrote stays unflushed while the loop blocks, and the requests it belongs to are not answered until an unrelated request arrives")
@@ -831,4 +953,19 @@ func checkFlushGate(c *Ctx, rule string) {
 	if n < 2 {
 		c.Unresolved(rule, fmt.Sprintf("expected two writer loops, found %d", n))
 	}
+}
+
+// refsOf: referrers of a value, or of the error component of a tuple-returning call (through its Extracts).
+func refsOf(v ssa.Value) []ssa.Instruction {
+	var out []ssa.Instruction
+	if v.Referrers() == nil {
+		return nil
+	}
+	for _, r := range *v.Referrers() {
+		out = append(out, r)
+		if ex, ok := r.(*ssa.Extract); ok {
+			out = append(out, *ex.Referrers()...)
+		}
+	}
+	return out
 }
